@@ -99,13 +99,14 @@ type Sched struct {
 	tailSeed uint64
 	tailPct  int
 	// ... or priority scheduling (Input.PCTSeed / PCTDepth / PCTSpan), see pctPick
-	pctSeed  uint64
-	pctDepth int
-	pctSpan  int
-	pctLow   map[string]int
-	cidx     int
-	made     []int // every decision taken, as the choice code that reproduces it
-	siteOff  map[string]bool
+	pctSeed    uint64
+	pctDepth   int
+	pctSpan    int
+	pctLow     map[string]int
+	cidx       int
+	made       []int // every decision taken, as the choice code that reproduces it
+	waiterTurn int
+	siteOff    map[string]bool
 
 	lines     []string // event log (pure function of the decisions)
 	keepLog   bool
@@ -264,8 +265,10 @@ func (s *Sched) pick(all []*Task) *Task {
 			ps = append(ps, p)
 		}
 	}
+	onlyWaiters := false
 	if len(ps) == 0 {
 		ps = all
+		onlyWaiters = true
 	}
 	var lastIdx = -1
 	for i, p := range ps {
@@ -284,6 +287,13 @@ func (s *Sched) pick(all []*Task) *Task {
 			c = tailChoice(s.tailSeed, s.tailPct, s.cidx)
 		}
 		s.cidx++
+	}
+	if onlyWaiters && len(ps) > 1 {
+		// Only tasks waiting for a mutex are left: they may wait for different mutexes, one of
+		// which has been released meanwhile, so each gets its turn to re-try (whatever the
+		// decision says; the run stays a pure function of its input).
+		chosen = ps[s.waiterTurn%len(ps)]
+		s.waiterTurn++
 	}
 	if chosen == nil {
 		switch {
